@@ -578,8 +578,8 @@ static void chk_strcat(const string &d0, const string &s, long n /* -1: strcat *
         auto W = [&] { return fmt("%s(dst=%s, src=%s%s) src_misalign=%u dst_misalign=%u placement=%s", g_fn, q(d0).c_str(), q(s).c_str(), bounded ? fmt(", n=%ld", n).c_str() : "", smis, dmis, MODE[mode]); };
         Wit<decltype(W)> ws(W);
         {
-            string hb = d0;
-            hb.resize(exp.size() + 1, '#');
+            string hb(exp.size() + 2, '#');
+            memcpy(&hb[0], d0.c_str(), d0.size() + 1);
             if (bounded)
                 strncat(&hb[0], s.c_str(), (size_t)n);
             else
